@@ -115,3 +115,44 @@ Fixpoint list_calls_spec {A} (l : list A) (steps : list (list_step A)) : list (N
   | LsAdd x :: rest => list_calls_spec (l ++ [x]) rest
   | LsCall s :: rest => (s, l) :: list_calls_spec l rest
   end.
+
+(* ---------- TLS configuration through the C ABI ("configuration passes through unchanged") ---------- *)
+(* The C-side configuration of rodbus_client_channel_create_tls (enum values by name; the three file paths are not
+   interpreted, they must be handed over as they are) ... *)
+Record tls_client_in := { ti_mode : string; ti_dns_name : string; ti_wildcard : bool; ti_password : string; ti_min : string }.
+(* ... and the Rust API constructor call it must be equivalent to: constructor, expected server name (None = the server
+   name is not verified), the C-side fields that feed the three paths, password, minimum TLS version. The result of the C
+   function is the result of THIS call (Ok, or the same-named ParamError). *)
+Record tls_call := { tc_ctor : string; tc_name : option string; tc_files : list string; tc_password : option string;
+                     tc_min : string; tc_mode : option string }.
+Definition opt_of_string (s : string) : option string := if String.eqb s "" then None else Some s.
+Definition tls_min_spec (m : string) : option string :=
+  if String.eqb m "V12" then Some "V1_2" else if String.eqb m "V13" then Some "V1_3" else None.
+Definition tls_files : list string := ["peer_cert_path"; "local_cert_path"; "private_key_path"].
+(* dns_name is the expected server name, verbatim; only "*" TOGETHER WITH allow_server_name_wildcard switches name
+   verification off ("If set to true, a '*' may be used for dns_name to bypass server name validation"). An empty
+   password means "no password". The self-signed mode does not use the name. *)
+Definition tls_client_spec (i : tls_client_in) : option tls_call :=
+  match tls_min_spec (ti_min i) with
+  | None => None
+  | Some m =>
+      if String.eqb (ti_mode i) "AuthorityBased" then
+        Some {| tc_ctor := "full_pki";
+                tc_name := if ti_wildcard i && String.eqb (ti_dns_name i) "*" then None else Some (ti_dns_name i);
+                tc_files := tls_files; tc_password := opt_of_string (ti_password i); tc_min := m; tc_mode := None |}
+      else if String.eqb (ti_mode i) "SelfSigned" then
+        Some {| tc_ctor := "self_signed"; tc_name := None; tc_files := tls_files; tc_password := opt_of_string (ti_password i);
+                tc_min := m; tc_mode := None |}
+      else None
+  end.
+(* rodbus_server_create_tls / _with_authz: TlsServerConfig::new with the same-named certificate mode *)
+Record tls_server_in := { tsi_mode : string; tsi_password : string; tsi_min : string }.
+Definition tls_server_spec (i : tls_server_in) : option tls_call :=
+  match tls_min_spec (tsi_min i) with
+  | None => None
+  | Some m =>
+      if String.eqb (tsi_mode i) "AuthorityBased" || String.eqb (tsi_mode i) "SelfSigned" then
+        Some {| tc_ctor := "TlsServerConfig::new"; tc_name := None; tc_files := tls_files; tc_password := opt_of_string (tsi_password i);
+                tc_min := m; tc_mode := Some (tsi_mode i) |}
+      else None
+  end.
